@@ -81,7 +81,9 @@ LineIdx(b, pos, kind) ==
     LET x == RdU(b, pos + l.n) IN IF ~x.ok THEN E("any") ELSE
     [item |-> [k |-> kind, line |-> l.v, str |-> [t |-> "strx", idx |-> x.v]], pos |-> pos + l.n + x.n]
 Step(b, pos, macro, fmt, le) ==
-    IF pos > Len(b) THEN E("UnexpectedEof")
+    \* gimli (since the fix "MacroIter stops after the end of the list and after an error"):
+    \* an exhausted input is the end of the list, like a terminator
+    IF pos > Len(b) THEN [end |-> TRUE]
     ELSE LET op == b[pos]
              p  == pos + 1 IN
     CASE op = 0 -> [end |-> TRUE]
@@ -137,7 +139,7 @@ ValidIn(e, macro) == IF e.k = "raw" THEN FALSE
                      ELSE IF OpOf(e) >= 5 THEN macro ELSE TRUE
 RECURSIVE MeaningFrom(_, _)
 MeaningFrom(u, i) ==
-    IF i > Len(u.entries) THEN (IF u.term THEN <<>> ELSE <<E("UnexpectedEof")>>)
+    IF i > Len(u.entries) THEN <<>>      \* a list that ends with the section needs no terminator
     ELSE IF ~ValidIn(u.entries[i], u.macro) THEN <<E(IF u.macro THEN "InvalidMacroType" ELSE "InvalidMacinfoType")>>
     ELSE <<ObsOf(u.entries[i])>> \o MeaningFrom(u, i + 1)
 Meaning(u) == IF u.macro /\ u.optable THEN E("UnsupportedOpcodeOperandsTable") ELSE [items |-> MeaningFrom(u, 1)]
